@@ -409,6 +409,10 @@ def def_facts(f, z, x, k):
             for arg in x[2]:
                 la = lin(arg)
                 z.add_lin_ge(({k: 1}, 0), la, 0)
+        elif (n == 'core::cmp::Ord::clamp' or n.endswith('>::clamp')) and len(x[2]) == 3:
+            # x.clamp(lo, hi) = x.max(lo).min(hi): lo <= k <= hi
+            z.add_lin_ge(({k: 1}, 0), lin(x[2][1]), 0)
+            z.add_lin_ge(lin(x[2][2]), ({k: 1}, 0), 0)
         elif n.endswith('len_utf8'):
             z.add(k, '0', 1)
             z.add('0', k, -4)
